@@ -51,7 +51,7 @@ address, and the step applies exactly that batch (`Sys.commitBy`). -/
 theorem C09_commit_atomic {s : Sys} (h : Inv s) {i : Nat} {w : Writer}
     {v : Nat} {ex : Option Server} {now : Int} {b : Batch} {r : WResult}
     (hc : s.clients[i]? = some (.writer w)) (hpc : w.pc = .exec v ex now b r) (hv : s.store.verOf w.key = v) :
-    decide w.op (s.store.items[w.key]?) now = .inr (b, r) ∧ b.key = w.key ∧
+    decideOp w.op (s.store.items[w.key]?) now = .inr (b, r) ∧ b.key = w.key ∧
       s.step (.step i) = s.commitBy i w b r := by
   have hw := h.winv i w hc
   refine ⟨?_, hw.execKey v ex now b r hpc, Sys.step_commit s i w hc hpc hv⟩
@@ -91,7 +91,7 @@ theorem C09_committed_result {s0 : Sys} (h : Init s0) (es : List Ev) (n : Nat) (
     (hn : (s0.run es).log[n]? = some c) :
     ∃ (w : Writer) (now : Int) (r : WResult), (s0.run es).clients[c.client]? = some (.writer w) ∧
       w.pc.fin? = some r ∧
-      decide w.op ((replay s0.store ((s0.run es).log.take n)).items[w.key]?) now = .inr (c.batch, r) := by
+      decideOp w.op ((replay s0.store ((s0.run es).log.take n)).items[w.key]?) now = .inr (c.batch, r) := by
   obtain ⟨w, now, r, hc, _, hf, hb, hd, _⟩ := (C09_linearizable h es).entries n c hn
   exact ⟨w, now, r, hc, hf, hb ▸ hd⟩
 
